@@ -22,11 +22,11 @@ REAL = ["rpyc.core.protocol.Connection._send/_send_data/_async_request/_get_seq_
         "rpyc.core.channel.Channel.send", "rpyc.core.stream.SocketStream.write", "brine"]
 STUB = ["peer = recording sink (nobody reads)", "threads/locks = simulator tasks and locks; line-level pre-emption via sys.settrace"]
 ASSUMPTIONS = ["pre-emption granularity is a source line (not a bytecode)", "seeded search, not exhaustive enumeration of the 2-thread space"]
-PROBES = ["c12:queue-empty-under-lock", "c12:lock-busy-return", "c12:reentrant-send", "c12:multi-write-frame"]
+PROBES = ["c12:queue-empty-under-lock", "c12:lock-busy-return", "c12:reentrant-send", "c12:multi-write-frame", "c12:reply-among-senders"]
 TRACE_FILES = ("rpyc/core/protocol.py", "rpyc/core/channel.py", "rpyc/core/brine.py")
 # (the message is serialised by brine.dump before it enters the queue / try-lock hand-off, i.e. outside the send lock: two senders
 #  can be inside the encoder at the same time)
-TRACE_FUNCS = {"_send", "_send_data", "_async_request", "_get_seq_id", "async_request", "send", "dump", "_dump", "_dump_tuple", "_dump_str",
+TRACE_FUNCS = {"_send", "_send_data", "_dispatch_request", "_async_request", "_get_seq_id", "async_request", "send", "dump", "_dump", "_dump_tuple", "_dump_str",
                "_dump_bytes", "_dump_int"}
 CHUNK = 100
 
@@ -80,6 +80,7 @@ def run_one(choices, params):
         plan.append(["T%d-%d" % (t, n) for n in range(1 + w.draw(3))])
     big = (w.draw(nthreads), 0) if w.draw(2) else None
     reentrant = bool(w.draw(2))
+    nreplies = (1 + w.draw(2)) if w.draw(2) else 0     # a further thread serves that many incoming requests: their replies are sends too
     strat = draw_strategy(c)
     cfg = net.NetCfg(send_frag=c.pick(("whole", "random")))
     info = {"states": set(), "preempt_in_send": 0}
@@ -128,7 +129,22 @@ def run_one(choices, params):
             finally:
                 done[0] += 1
         tasks = [sim.spawn(sender, t, _name="sender%d" % t) for t in range(nthreads)]
-        sim.block(lambda: done[0] == nthreads, None, "join-senders")
+        if nreplies:
+            # the peer's requests are already in the socket buffer; the serving thread answers them while the others send
+            from ref.peer import RefPeer
+            rp = RefPeer(b, compress=False)
+            for n in range(nreplies):
+                rp.request(RC.H_PING, (RC.LABEL_TUPLE, ((RC.LABEL_VALUE, "R-%d" % n + ("#" * 120 if n == 0 and big is None else "")),)), seq=900 + n)
+            sim.count("c12:reply-among-senders")
+
+            def server():
+                try:
+                    for n in range(nreplies):
+                        conn.serve(5)
+                finally:
+                    done[0] += 1
+            tasks.append(sim.spawn(server, _name="server"))
+        sim.block(lambda: done[0] == len(tasks), None, "join-senders")
         k.send_hook = None
         for t in tasks:
             if t.exc is not None:
@@ -171,9 +187,12 @@ def run_one(choices, params):
         for body_, flag, raw in frames:
             try:
                 kind, seq, args = RC.parse_msg(body_)
-                h, boxed = args
+                h, boxed = args if kind == RC.MSG_REQUEST else (None, None)
             except Exception as e:
                 raise core.Violation("split-frame", "frame does not decode: %r" % (e,))
+            if kind == RC.MSG_REPLY:
+                got.append("REPLY-%d" % seq)
+                continue
             seqs.append(seq)
             if h == RC.H_PING:
                 try:
@@ -184,7 +203,7 @@ def run_one(choices, params):
                 got.append("DEL")
             else:
                 raise core.Violation("split-frame", "unexpected handler %r on the wire" % (h,))
-        want = sorted(issued + (["DEL"] if reentrant and not held else []))
+        want = sorted(issued + (["DEL"] if reentrant and not held else []) + ["REPLY-%d" % (900 + n) for n in range(nreplies)])
         if sorted(got) != want:
             missing = [x[:8] for x in want if got.count(x) < want.count(x)]
             extra = [x[:8] for x in got if got.count(x) > want.count(x)]
@@ -193,6 +212,9 @@ def run_one(choices, params):
             raise core.Violation("lost", "never transmitted: %r" % (missing,))
         if len(set(seqs)) != len(seqs):
             raise core.Violation("seq-reused", "sequence numbers on the wire: %r" % (seqs,))
+        reps = [g for g in got if g.startswith("REPLY-")]
+        if reps != sorted(reps):
+            raise core.Violation("per-thread-order", "the serving thread answered in the order %r" % (reps,))
         for t in range(nthreads):
             mine = [g[:len("T0-0")] for g in got if g.startswith("T%d-" % t)]
             if mine != plan[t]:
